@@ -63,6 +63,9 @@ func genValCell(r *rand.Rand, kind string) *table.Cell {
 		}
 		return &table.Cell{L: mustLit(literal.Float64, pickF(r, sumFloats))}
 	}
+	if kind == "collide" { // values whose underlying bytes / concatenations coincide: count(distinct) must keep them apart
+		return genCell(r, "collide")
+	}
 	return genCell(r, colKindsAll[r.Intn(len(colKindsAll))])
 }
 
@@ -85,7 +88,7 @@ func genReduceCase(r *rand.Rand) reduceCase {
 		c.Class = "near"
 		c.Cols[r.Intn(len(c.Cols))] = []string{[]string{"floatN", "floatN", "digits", "digitsT", "str"}[r.Intn(5)]}
 	}
-	c.ValKind = []string{"ints", "ints", "floats", "intfloat", "any"}[r.Intn(5)]
+	c.ValKind = []string{"ints", "ints", "floats", "intfloat", "any", "collide"}[r.Intn(6)]
 	n := r.Intn(13)
 	if r.Intn(8) == 0 && c.Class == "D12" && c.ValKind == "ints" {
 		n = 13 + r.Intn(25)
@@ -116,6 +119,9 @@ func genReduceCase(r *rand.Rand) reduceCase {
 	na := 1 + r.Intn(3)
 	for i := 0; i < na; i++ {
 		a := accs[r.Intn(len(accs))]
+		if c.ValKind == "collide" {
+			a = []string{"distinct", "distinct", "count"}[r.Intn(3)]
+		}
 		if a == "sumint" && c.ValKind == "floats" && r.Intn(4) != 0 {
 			a = "sumfloat"
 		}
@@ -222,8 +228,11 @@ func genE2E11(r *rand.Rand) e2eCase {
 		shape = []int{1, 2, 6, 7, 7}[r.Intn(5)] // shapes that group by the generated object
 	}
 	wK := []string{[]string{"intD", "int", "floatD", "float"}[r.Intn(4)]}
+	collide := false
 	if shape == 1 || shape == 2 {
 		wK = []string{[]string{"intD", "int"}[r.Intn(2)]}
+	} else if r.Intn(6) == 0 {
+		wK, collide = []string{"collide"}, true // count(distinct ?x) over values that coincide in their underlying bytes
 	} else if r.Intn(8) == 0 {
 		wK = []string{"intD", "floatD"}
 	}
@@ -312,7 +321,11 @@ func genE2E11(r *rand.Rand) e2eCase {
 	na := 1 + r.Intn(3)
 	for i := 0; i < na; i++ {
 		p := jproj{Bind: aggOn, Alias: fmt.Sprintf("?a%d", i)}
-		switch r.Intn(4) {
+		k := r.Intn(4)
+		if collide {
+			k = r.Intn(2)
+		}
+		switch k {
 		case 0:
 			p.Op = "count"
 		case 1:
